@@ -386,7 +386,14 @@ def rule_keys_in_address_order(ctx: Ctx, rep: Report) -> None:
     rep.floor(rule, 1)
 
 
+def rule_points_compared_whole_(ctx: Ctx, rep: Report) -> None:
+    """C16.points_compared_whole: a verification equation compares points on both coordinates (see sigcommon.rule_points_compared_whole)."""
+    from rules.sigcommon import rule_points_compared_whole
+    rule_points_compared_whole(ctx, rep, "C16.points_compared_whole", ('btclib.ecc.musig2', 'btclib.psbt.musig2', 'btclib.ecc.dleq', 'btclib.ecc.borromean'), 1)
+
+
 RULES = [
+    ("C16.points_compared_whole", rule_points_compared_whole_),
     ("C16.keys_in_address_order", rule_keys_in_address_order),
     ("C16.kmax_everywhere", rule_kmax_everywhere),
     ("C16.kmax_per_scan_key", rule_kmax_per_scan_key),
